@@ -179,6 +179,27 @@ fn real_main() {
                 let e_line = match e.eps { Some(f) => format!("E {}", f(&bytes, r.parse().unwrap())), None => "E -".into() };
                 Some(format!("fromhex | {} | {}", f_line, e_line))
             }
+            ["loadu", i, loader, flags, val] => {
+                // the heap region of load_mem is 64-aligned: load 24 times, moving the heap by blocks of varying sizes (kept
+                // alive) in between, so that it lands on 128-aligned and on other addresses; report a value with a misaligned
+                // reference if there is one, otherwise the last value, otherwise the error
+                thread_local! { static KEEP: std::cell::RefCell<Vec<Vec<u8>>> = const { std::cell::RefCell::new(Vec::new()) }; }
+                Some(match (parse(val), reg[i.parse::<usize>().unwrap()].load) {
+                    (Some(t), Some(f)) => {
+                        let mut best: Option<String> = None;
+                        for round in 0..(if *loader == "mem" { 24usize } else { 2 }) {
+                            KEEP.with(|k| { let mut k = k.borrow_mut(); let n = k.len() + round; k.push(Vec::with_capacity(16 + 48 * (n * n % 23))); });
+                            let a = f(&t, loader, flags.parse().unwrap());
+                            let bad = a.contains("@!");
+                            let ok = a.starts_with("load ok");
+                            if bad { best = Some(a); break; }
+                            if ok || best.is_none() { best = Some(a); }
+                        }
+                        best.unwrap()
+                    }
+                    _ => "badval".into(),
+                })
+            }
             ["load", i, loader, flags, val] => Some(match (parse(val), reg[i.parse::<usize>().unwrap()].load) {
                 (Some(t), Some(f)) => f(&t, loader, flags.parse().unwrap()),
                 _ => "badval".into(),
